@@ -202,3 +202,71 @@ Print Assumptions C05_source_len.
 Theorem C05_source_example : g_rsq_example_checks256 /\ g_rsq_example_checks512.
 Proof. exact (conj g_rsq_example_256 g_rsq_example_512). Qed.
 Print Assumptions C05_source_example.
+
+(* ---- the directory CONSTRUCTOR regenerated from src/qvector/rs_qvector/rs_support_plain.rs on every run (T5:
+   SuperblockPlain::new / set_block_counters, RSSupportPlain::<B>::new): run on the stored quad vector it returns exactly
+   the superblocks and select samples of the hand model (value or fault alike), so the regenerated queries above, run on
+   the directory the regenerated constructor built, answer by the list specification. *)
+From QwtModel Require Import FnsRssNewOk.
+Theorem C05_source_sb_new : forall sbc, len sbc = 4 -> g_sb_new sbc = Val (sb_new sbc).
+Proof. exact g_sb_new_ok. Qed.
+Print Assumptions C05_source_sb_new.
+Theorem C05_source_sb_set_block_counters : forall s block_id counters, len s = 4 -> len counters = 4 ->
+  g_sb_set_block_counters s block_id counters = sb_set_block_counters s block_id counters.
+Proof. exact g_sb_set_block_counters_ok. Qed.
+Print Assumptions C05_source_sb_set_block_counters.
+Theorem C05_source_directory_new_256 : forall q syms, qv_lines_ok q -> qv_cap_ok q -> qv_symbols q = Val syms ->
+  g_rss256_new (pack_qdata (qv_data q)) (qv_position q)
+  = let! rs := rss_new 256 syms in Val (rs_superblocks rs, rs_samples rs).
+Proof. exact g_rss256_new_ok. Qed.
+Print Assumptions C05_source_directory_new_256.
+Theorem C05_source_directory_new_512 : forall q syms, qv_lines_ok q -> qv_cap_ok q -> qv_symbols q = Val syms ->
+  g_rss512_new (pack_qdata (qv_data q)) (qv_position q)
+  = let! rs := rss_new 512 syms in Val (rs_superblocks rs, rs_samples rs).
+Proof. exact g_rss512_new_ok. Qed.
+Print Assumptions C05_source_directory_new_512.
+Theorem C05_source_directory_e2e_256 : forall vs r, rsq_new 256 vs = Val r ->
+  g_rss256_new (rsq_wdata r) (rsq_pos r) = Val (rs_superblocks (rsq_rs r), rs_samples (rsq_rs r)).
+Proof. exact g_rss256_new_e2e. Qed.
+Print Assumptions C05_source_directory_e2e_256.
+Theorem C05_source_directory_e2e_512 : forall vs r, rsq_new 512 vs = Val r ->
+  g_rss512_new (rsq_wdata r) (rsq_pos r) = Val (rs_superblocks (rsq_rs r), rs_samples (rsq_rs r)).
+Proof. exact g_rss512_new_e2e. Qed.
+Print Assumptions C05_source_directory_e2e_512.
+Theorem C05_source_regenerated_dir_256 : forall vs r, len vs < RSQ_MAXN -> rsq_new 256 vs = Val r ->
+  exists sbs samples, g_rss256_new (rsq_wdata r) (rsq_pos r) = Val (sbs, samples) /\
+    (forall c i, g_rsq256_rank (rsq_wdata r) (rsq_pos r) sbs c i
+       = Val (if (c <=? 3) && (i <=? len vs) then Some (rank_spec (map sym4 vs) c i) else None)) /\
+    (forall c k fuel, k < 2 ^ 64 -> (S (S (N.to_nat (len vs / (8 * 256)))) <= fuel)%nat ->
+       g_rsq256_select fuel (rsq_wdata r) sbs samples (rsq_occs_smaller r) c k
+       = Val (if c <=? 3 then select_spec (map sym4 vs) c k else None)) /\
+    (forall c i, c <= 3 -> i <= len vs ->
+       g_rsq256_rank_unchecked (rsq_wdata r) sbs c i = Val (rank_spec (map sym4 vs) c i)) /\
+    (forall c k p fuel, c <= 3 -> select_spec (map sym4 vs) c k = Some p ->
+       (S (S (N.to_nat (len vs / (8 * 256)))) <= fuel)%nat ->
+       g_rsq256_select_unchecked fuel (rsq_wdata r) sbs samples (rsq_occs_smaller r) c k = Val p) /\
+    (forall c i, c <= 3 -> i <= len vs ->
+       exists v, g_rsq256_rank_block_unchecked sbs c i = Val v /\ v <= rank_spec (map sym4 vs) c i).
+Proof. exact g_rsq256_regenerated_dir. Qed.
+Print Assumptions C05_source_regenerated_dir_256.
+Theorem C05_source_regenerated_dir_512 : forall vs r, len vs < RSQ_MAXN -> rsq_new 512 vs = Val r ->
+  exists sbs samples, g_rss512_new (rsq_wdata r) (rsq_pos r) = Val (sbs, samples) /\
+    (forall c i, g_rsq512_rank (rsq_wdata r) (rsq_pos r) sbs c i
+       = Val (if (c <=? 3) && (i <=? len vs) then Some (rank_spec (map sym4 vs) c i) else None)) /\
+    (forall c k fuel, k < 2 ^ 64 -> (S (S (N.to_nat (len vs / (8 * 512)))) <= fuel)%nat ->
+       g_rsq512_select fuel (rsq_wdata r) sbs samples (rsq_occs_smaller r) c k
+       = Val (if c <=? 3 then select_spec (map sym4 vs) c k else None)) /\
+    (forall c i, c <= 3 -> i <= len vs ->
+       g_rsq512_rank_unchecked (rsq_wdata r) sbs c i = Val (rank_spec (map sym4 vs) c i)) /\
+    (forall c k p fuel, c <= 3 -> select_spec (map sym4 vs) c k = Some p ->
+       (S (S (N.to_nat (len vs / (8 * 512)))) <= fuel)%nat ->
+       g_rsq512_select_unchecked fuel (rsq_wdata r) sbs samples (rsq_occs_smaller r) c k = Val p) /\
+    (forall c i, c <= 3 -> i <= len vs ->
+       exists v, g_rsq512_rank_block_unchecked sbs c i = Val v /\ v <= rank_spec (map sym4 vs) c i).
+Proof. exact g_rsq512_regenerated_dir. Qed.
+Print Assumptions C05_source_regenerated_dir_512.
+Theorem C05_source_directory_total : forall vs, len vs < RSQ_MAXN ->
+  exists r, rsq_new 256 vs = Val r /\
+    g_rss256_new (rsq_wdata r) (rsq_pos r) = Val (rs_superblocks (rsq_rs r), rs_samples (rsq_rs r)).
+Proof. exact g_rss_new_total. Qed.
+Print Assumptions C05_source_directory_total.
